@@ -15,7 +15,7 @@ instance (rt : Rt) : Decidable (OKrt rt) := by unfold OKrt; exact inferInstance
 
 def Rejected (ev : Ev) : Prop :=
   match ev.kind with
-  | .call _ res b a => res = false ∧ a = b
+  | .call _ _ res b a => res = false ∧ a = b
   | .unmodelled => False
   | _ => True
 
@@ -40,31 +40,68 @@ theorem allRejected_lift {sid : StateId} {t : Trace} (h : AllRejected t) : AllRe
   rcases List.mem_map.1 he with ⟨ev', h', rfl⟩
   exact h ev' h'
 
-/-- inside a callback (`is_running_`, `cb_level_ > 0`) every scripted call is rejected -/
-theorem scriptCall_rejected (rt : Rt) (c : Call) (hr : rt.running = true) (hc : rt.cbLevel ≠ 0) :
-    scriptCall rt c = .call c false rt.view rt.view := by
-  cases c <;> simp [scriptCall, startReject, stopReject, runReject, hr, hc]
+/-- a machine inside one of its own methods: `is_running_` and `cb_level_ > 0` -/
+def Busy (rt : Rt) : Prop := rt.running = true ∧ rt.cbLevel ≠ 0
 
-theorem runScript_rejected (rt : Rt) (sc : Script) (hr : rt.running = true) (hc : rt.cbLevel ≠ 0) :
-    AllRejected (runScript rt sc) := by
-  induction sc with
-  | nil => exact allRejected_nil
-  | cons op rest ih =>
-    cases op with
-    | obs => simp only [runScript]; exact allRejected_cons.2 ⟨by simp [Rejected, here], ih⟩
-    | call c =>
-      simp only [runScript]
-      refine allRejected_cons.2 ⟨?_, ih⟩
-      rw [scriptCall_rejected rt c hr hc]; simp [Rejected, here]
+/-- every ancestor is inside a call -/
+def AllBusy (ctx : Ctx) : Prop := ∀ p ∈ ctx, Busy p.2
 
-theorem probe_rejected (mk : Bool → Kind) (p : Option Script) (rt : Rt)
-    (hmk : ∀ b, Rejected (here (mk b))) (hr : rt.running = true) (hc : rt.cbLevel ≠ 0) :
-    AllRejected (probe mk p rt) := by
+theorem allBusy_nil : AllBusy [] := by intro p h; cases h
+theorem allBusy_cons (k : Nat) {rt : Rt} {ctx : Ctx} (h1 : Busy rt) (h2 : AllBusy ctx) : AllBusy ((k, rt) :: ctx) := by
+  intro p hp
+  cases hp with
+  | head => exact h1
+  | tail _ h => exact h2 p h
+
+/-- a call on a busy machine is rejected -/
+theorem scriptCall_rejected (rt : Rt) (t : Option Nat) (c : Call) (h : Busy rt) :
+    scriptCall rt t c = .call t c false rt.view rt.view := by
+  cases c <;> simp [scriptCall, startReject, stopReject, runReject, h.1, h.2]
+
+theorem targetRt_busy {self : Nat} {rt : Rt} {ctx : Ctx} {t : Option Nat} {r : Rt}
+    (h : Busy rt) (hctx : AllBusy ctx) (ht : targetRt self rt ctx t = some r) : Busy r := by
+  cases t with
+  | none => simp [targetRt] at ht; subst ht; exact h
+  | some k =>
+    simp only [targetRt] at ht
+    split at ht
+    · cases ht; exact h
+    · unfold lookupCtx at ht
+      cases hf : ctx.find? (fun p => p.1 == k) with
+      | none => simp [hf] at ht
+      | some p =>
+        simp [hf] at ht; subst ht
+        exact hctx p (List.mem_of_find?_eq_some hf)
+
+theorem scriptOp_rejected (self : Nat) (rt : Rt) (ctx : Ctx) (op : SOp) (h : Busy rt) (hctx : AllBusy ctx) :
+    Rejected (here (scriptOp self rt ctx op)) := by
+  cases op with
+  | obs t =>
+    simp only [scriptOp]
+    cases targetRt self rt ctx t <;> simp [Rejected, here]
+  | call t c =>
+    simp only [scriptOp]
+    cases ht : targetRt self rt ctx t with
+    | none => simp [Rejected, here]
+    | some r =>
+      simp only []
+      rw [scriptCall_rejected r t c (targetRt_busy h hctx ht)]; simp [Rejected, here]
+
+theorem runScript_rejected (self : Nat) (rt : Rt) (ctx : Ctx) (sc : Script) (h : Busy rt) (hctx : AllBusy ctx) :
+    AllRejected (runScript self rt ctx sc) := by
+  intro ev hev
+  unfold runScript at hev
+  rcases List.mem_map.1 hev with ⟨op, _, rfl⟩
+  exact scriptOp_rejected self rt ctx op h hctx
+
+theorem probe_rejected (mk : Bool → Kind) (p : Option Script) (self : Nat) (rt : Rt) (ctx : Ctx)
+    (hmk : ∀ b, Rejected (here (mk b))) (h : Busy rt) (hctx : AllBusy ctx) :
+    AllRejected (probe mk p self rt ctx) := by
   unfold probe
   refine allRejected_cons.2 ⟨hmk _, ?_⟩
   cases p with
   | none => exact allRejected_nil
-  | some sc => exact runScript_rejected rt sc hr hc
+  | some sc => exact runScript_rejected self rt ctx sc h hctx
 
 section
 variable {R Sub : Type}
@@ -124,17 +161,18 @@ end
 section
 variable {Sub : Type}
 
-def InvL (I : Sub → Prop) (ops : SubOps Sub) (m : M Sub) : Prop :=
+def InvL (I : Sub → Prop) (ops : SubOps Ctx Sub) (m : M Sub) : Prop :=
   OKrt m.rt ∧ ∀ sid st x, m.findState sid = some st → st.sub = some x →
     I x ∧ (m.rt.curr ≠ some sid → ops.isRunning x = false)
 
-/-- what the parent may assume of its sub-machines' API -/
-structure SubInv (I : Sub → Prop) (ops : SubOps Sub) : Prop where
-  start : ∀ x, I x → I (ops.start x).1 ∧ AllRejected (ops.start x).2.2
-  stop : ∀ x, I x → I (ops.stop x).1 ∧ ops.isRunning (ops.stop x).1 = false ∧ AllRejected (ops.stop x).2
-  run : ∀ x e, I x → I (ops.run x e).1 ∧ AllRejected (ops.run x e).2.2
+/-- what the parent may assume of its sub-machines' API (whenever all ancestors are busy) -/
+structure SubInv (I : Sub → Prop) (ops : SubOps Ctx Sub) : Prop where
+  start : ∀ ctx x, AllBusy ctx → I x → I (ops.start ctx x).1 ∧ AllRejected (ops.start ctx x).2.2
+  stop : ∀ ctx x, AllBusy ctx → I x →
+    I (ops.stop ctx x).1 ∧ ops.isRunning (ops.stop ctx x).1 = false ∧ AllRejected (ops.stop ctx x).2
+  run : ∀ ctx x e, AllBusy ctx → I x → I (ops.run ctx x e).1 ∧ AllRejected (ops.run ctx x e).2.2
 
-theorem invL_setSub {I : Sub → Prop} {ops : SubOps Sub} {m : M Sub} {c : StateId} {x : Sub}
+theorem invL_setSub {I : Sub → Prop} {ops : SubOps Ctx Sub} {m : M Sub} {c : StateId} {x : Sub}
     (h : InvL I ops m) (hx : I x) (hrun : m.rt.curr ≠ some c → ops.isRunning x = false) :
     InvL I ops (m.setSub c x) := by
   refine ⟨h.1, ?_⟩
@@ -155,7 +193,7 @@ theorem invL_setSub {I : Sub → Prop} {ops : SubOps Sub} {m : M Sub} {c : State
     exact h.2 sid st y hf hs
 
 /-- changing only the run-time record -/
-theorem invL_setRt {I : Sub → Prop} {ops : SubOps Sub} {m : M Sub} (rt : Rt)
+theorem invL_setRt {I : Sub → Prop} {ops : SubOps Ctx Sub} {m : M Sub} (rt : Rt)
     (hrt : OKrt rt)
     (hsub : ∀ sid st x, m.findState sid = some st → st.sub = some x →
       I x ∧ (rt.curr ≠ some sid → ops.isRunning x = false)) :
